@@ -32,8 +32,8 @@ type c12Case struct {
 // called function (built-in or user supplied), so only "error, no panic" is required.
 var c12Actions = []struct {
 	class, src string
-	pos       bool
-	partial   string
+	pos        bool
+	partial    string
 }{
 	{"unknown-identifier", "noSuchVariable", true, ""},
 	{"unknown-identifier", "noSuchFunction(1)", true, ""},
@@ -58,6 +58,10 @@ var c12Actions = []struct {
 	{"slice-range", "fxs[1:9]", true, ""},
 	{"slice-range", "fxs[2:1]", true, ""},
 	{"slice-range", "fxs[5:]", true, ""},
+	{"slice-range", "fxs[:-1]", true, ""},
+	{"slice-range", "fxs[1:-1]", true, ""},
+	{"slice-range", "fstr[:fneg]", true, ""},
+	{"slice-range", "fstr[fneg:]", true, ""},
 	{"slice-kind", `fxs["a":1]`, true, ""},
 	{"slice-kind", `fxs[0:"b"]`, true, ""},
 	{"slice-kind", "fnum[0:1]", true, ""},
@@ -96,6 +100,9 @@ var c12Actions = []struct {
 	{"slot-without-pipe", `repeat("a", _)`, true, ""},
 	{"writer-not-last", `raw: "x" | upper`, true, "x"},
 	{"writer-not-last", `"y" | raw | upper`, true, "y"},
+	{"writer-not-last", `raw: "x" | isset`, true, "x"},
+	{"writer-not-last", `safeHtml: "x" | passthru`, true, "x"},
+	{"writer-not-last", `"y" | unsafe | passthru | upper`, true, "y"},
 	{"assign-undeclared", "neverDeclared = 1", true, ""},
 	{"division-by-zero", "fnum / fzero", true, ""},
 	{"division-by-zero", "fnum % fzero", true, ""},
@@ -172,6 +179,7 @@ func genC12(t *rapid.T) c12Case {
 	failVars(g.p)
 	g.p.Vars["fstr"] = mj.RStr("str")
 	g.p.Vars["fzero"] = mj.RInt(0)
+	g.p.Vars["fneg"] = mj.RInt(-1)
 	g.p.Vars["fmap"] = mj.Recipe{T: "map[string]int", Keys: []string{"k"}, Is: []int64{1}}
 	g.p.Vars["fch"] = mj.Recipe{T: "chan int", Is: []int64{1}}
 	d := mj.Recipe{T: "user", S: "ctxuser"}
